@@ -77,7 +77,14 @@ func execC14Cfg(sc c14Cfg) *vstat.Outcome {
 	}
 	for _, rq := range sc.Reqs {
 		host, uri := rq[0], rq[1]
-		got := location.Get(host, uri, sc.Names...)
+		// the caller's list (a server's configured location names) is the caller's: handed over as
+		// it is, as the proxy middleware does, and it must come back unchanged
+		names := append([]string{}, sc.Names...)
+		got := location.Get(host, uri, names...)
+		if fmt.Sprint(names) != fmt.Sprint(sc.Names) {
+			out.Violate("C14", "caller-list-altered", "host %q uri %q: the lookup changed the list of location names it was given from %v to %v (the proxy hands over the server's own list: later requests of that server are routed by the altered list)", host, uri, sc.Names, names)
+			return out
+		}
 		best, nMatch := 4, 0
 		classes := map[int]bool{}
 		for _, l := range sc.Locs {
